@@ -16,6 +16,8 @@ LEVEL_COUNT = ('bounded symbolic execution of the real droop code (SYMEX over z3
 
 def _count(prop, monitors, require, tier, **kw):
     jobs = grid.base_grid(tier, monitors, **kw)
+    # vacuity guard: the same harness with an assertion that is False must come back violated
+    jobs.append(grid.job('wigm-prf', {}, 3, 2, 2, 4, ['TWIN'], 120, twin=True, max_per_key=1, name='vacuity twin (assert False)'))
     return dict(jobs=jobs, level_text=LEVEL_COUNT, assumptions=COUNT_ASSUME, require_reach=require, bounds=grid.bounds_text(jobs))
 
 
@@ -106,8 +108,11 @@ def _chunks(obs, k):
 
 
 def _leaf(obs, funcs, nchunks=16, require=()):
+    obs = list(obs) + [['twin_false', {'p': 3}]]
     jobs = [dict(kind='leaf', name='leaf-chunk-%d' % i, obligations=c, functions=funcs, budget_s=1800, ob_budget_s=900)
             for i, c in enumerate(_chunks(obs, nchunks))]
+    for j in jobs:
+        j['twin'] = True
     return dict(jobs=jobs, level_text=LEVEL_LEAF, assumptions=LEAF_ASSUME, require_reach=list(require))
 
 
@@ -348,6 +353,8 @@ def C10(tier):
                 jobs.append(djob('split', rule, opts, n, seats, maxlen, Nn, nozero=True, batch=batch[k::nchunk], validate_every=5,
                                  budget=300 if quick else 1500, chunk='%d/%d of %d zero-free supports' % (k + 1, nchunk, len(batch)), weight=4))
     tj = _layout_jobs(tier)
+    jobs.append(djob('opts', 'wigm', {}, 3, 2, 2, 4, optionsA=dict(rule='wigm-prf'), optionsB=dict(rule='scotland'), budget=120, twin_job=True, max_per_key=1,
+                     cfg='vacuity twin: two different rules must be reported as different'))
     return dict(jobs=jobs + tj, level_text=LEVEL_DIFF + '; plus token-mode layout variants of the reader (see C15)', assumptions=DIFF_ASSUME + TOKEN_ASSUME,
                 require_reach=['pair-compared', 'layout-compared'],
                 bounds=dict(presentations='ballot lines reversed and every line split in two with multipliers m-s and s (0<=s<=m symbolic)',
@@ -372,6 +379,8 @@ def C11(tier):
     if not quick:
         for rule, opts in [('wigm-prf', {}), ('cfer-batch', {}), ('meek', FX3)]:
             jobs.append(djob('perm', rule, opts, 4, 2, 2, 5, symtie=True, perm_limit=6, budget=1500, weight=6))
+    jobs.append(djob('opts', 'wigm', {}, 3, 2, 2, 4, optionsA=dict(rule='wigm-prf'), optionsB=dict(rule='scotland'), budget=120, twin_job=True, max_per_key=1,
+                     cfg='vacuity twin: two different rules must be reported as different'))
     return dict(jobs=jobs, level_text=LEVEL_DIFF, assumptions=DIFF_ASSUME, require_reach=['pair-compared'],
                 bounds=dict(renumbering='all permutations of 3 candidate ids (thorough: 6 sampled of 4), names, tie ranks (symbolic) and rankings carried along',
                             withdrawal='candidate w of 4 withdrawn vs deleted from the list and every ranking', ballots_max=5,
@@ -420,6 +429,8 @@ def C17(tier):
         overridden = sorted(k for k in forced if k in supplied and supplied[k] != forced[k])
         jobs.append(grid.job(rule, cmd, 3, 2, 2, 4, ['C17h'], 300, fixed_total=True, droop_line=' '.join('%s=%s' % kv for kv in filed.items()),
                              expect_unused=unused, expect_overridden=overridden, expect_file=filed, expect_force=forced, weight=2))
+    jobs.append(djob('opts', 'wigm', {}, 3, 2, 2, 4, optionsA=dict(rule='wigm-prf'), optionsB=dict(rule='scotland'), budget=120, twin_job=True, max_per_key=1,
+                     cfg='vacuity twin: two different rules must be reported as different'))
     return dict(jobs=jobs, level_text=LEVEL_DIFF + '; option layering: the real Options methods run on symbolic option values for every presence pattern of the four layers',
                 assumptions=DIFF_ASSUME, require_reach=['pair-compared', 'layer-assignments', 'header-checked'],
                 bounds=dict(perturbations=[p for _, p in PERTURB], sources=['caller', '[droop ...] line', 'both'], statutory_rules=STATUTORY,
@@ -460,6 +471,8 @@ def C20(tier):
                          N=4 if (quick or slow) else 5, budget_s=300 if quick else 1500, weight=3 if slow else 1))
         jobs.append(djob('twice', rule, opts, 3, 2, 2, 4, budget=300, **(dict(equal=grid.EQUAL_LINES) if rule in ('meek', 'warren') else {})))
     jobs.append(dict(kind='misc', mode='havoc', name='havoc wigm rational', rule='wigm', opts=dict(grid.RAT), n=3, seats=1, maxlen=2, N=4, budget_s=300))
+    jobs.append(djob('opts', 'wigm', {}, 3, 2, 2, 4, optionsA=dict(rule='wigm-prf'), optionsB=dict(rule='scotland'), budget=120, twin_job=True, max_per_key=1,
+                     cfg='vacuity twin: two different rules must be reported as different'))
     return dict(jobs=jobs, level_text='inductive step instead of histories: every class/module attribute that any election can leave changed (measured on a predecessor family, reported '
                 'with its static AST superset) is havocked to a poison value before the election under test is constructed and counted symbolically on every feasible path; '
                 'no poison read and a record equal to the unhavocked one covers every history; a hit is confirmed by a concrete predecessor search in fresh interpreters',
